@@ -85,6 +85,7 @@ impl Sim {
     pub fn new(seed: u64, cfg: RunCfg) -> Self {
         let mut node = SimNode::new(cfg.start_height);
         node.pay_placeholder_preimage = cfg.pay_placeholder;
+        node.big_messages = cfg.big_messages;
         Sim {
             seed,
             content_seed: mix(seed, 0xC0_47E47),
@@ -104,7 +105,8 @@ impl Sim {
                 init_acked: false,
                 main_result: None,
                 quiescing: false,
-                frozen_hash: None,
+                frozen_hard: 0,
+                frozen_soft: 0,
                 frozen_at_step: None,
                 comp_pending_blocks: Vec::new(),
                 catchup: None,
@@ -314,6 +316,14 @@ impl Sim {
             }
             self.settle().await;
             self.process_events();
+            if seam::rpc_cap_hit() {
+                // A request storm (more RPC calls in one step than the
+                // simulator can have provoked): the run is abandoned, nothing
+                // is concluded from it beyond the per-step rules so far.
+                self.stats.fault("run-abandoned-rpc-storm");
+                note!(self, "RUN ABANDONED: more than {} RPC calls in one step", seam::RPC_STEP_CAP);
+                return End::Done;
+            }
             if self.w.cfg.mode == "watcher" {
                 seam::comp_send("query", 0);
                 self.settle().await;
@@ -392,37 +402,46 @@ impl Sim {
         let hash = p.hashes[0];
         // Parts that exist before the call (only in the first lifetime).
         if self.w.node.lifetime == 0 && !self.w.cfg.pre_parts.is_empty() {
-            self.w.node.pay_cmds.push(super::node::PayCmd {
-                rpc: 0,
-                hash,
-                bolt11: p.inv(0, content::InvKind::Fixed).bolt11.clone(),
-                amount_msat: p.fixed_amounts[0],
-                maxfee: 0,
-                maxdelay: 0,
-                retry_for: 0,
-                groupid: 1,
-                state: CmdState::Replied,
-                parts_created: 0,
-                lifetime: 0,
-                applied_seq: 0,
-            });
+            // Each entry: status (low nibble: 0 pending, 1 failed, 2 complete)
+            // and group (high nibble: 0 => groupid 1, 1 => groupid 2, ...):
+            // parts of an older pay command may still be unresolved while a
+            // newer group exists.
             let states = self.w.cfg.pre_parts.clone();
-            let n = states.len();
+            let n_groups = states.iter().map(|s| (s >> 4) as u64 + 1).max().unwrap_or(1);
+            for g in 1..=n_groups {
+                self.w.node.pay_cmds.push(super::node::PayCmd {
+                    rpc: 0,
+                    hash,
+                    bolt11: p.inv(0, content::InvKind::Fixed).bolt11.clone(),
+                    amount_msat: p.fixed_amounts[0],
+                    maxfee: 0,
+                    maxdelay: 0,
+                    retry_for: 0,
+                    groupid: g,
+                    state: CmdState::Replied,
+                    parts_created: 0,
+                    lifetime: 0,
+                    applied_seq: 0,
+                });
+            }
             for (i, st) in states.iter().enumerate() {
+                let g = (st >> 4) as u64 + 1;
+                let in_group = states.iter().filter(|s| (*s >> 4) as u64 + 1 == g).count();
+                let ix_in_group = states[..i].iter().filter(|s| (*s >> 4) as u64 + 1 == g).count();
                 let id = self.w.node.next_part_id;
                 self.w.node.next_part_id += 1;
                 self.w.node.parts.push(super::node::Part {
                     hash,
-                    groupid: 1,
-                    partid: if n == 1 { 0 } else { i as u64 + 1 },
-                    status: match st {
+                    groupid: g,
+                    partid: if in_group == 1 { 0 } else { ix_in_group as u64 + 1 },
+                    status: match st & 15 {
                         0 => PartStatus::Pending,
                         1 => PartStatus::Failed(204),
                         _ => PartStatus::Complete,
                     },
                     amount_msat: 1000,
                     fee_msat: 0,
-                    cmd: 0,
+                    cmd: (g - 1) as usize,
                     id,
                     created_seq: 0,
                 });
@@ -708,7 +727,7 @@ impl Sim {
         None
     }
 
-    fn build_call(&mut self, hid: u64) -> (Value, String) {
+    fn build_call(&mut self, hid: u64) -> (Value, Value, String) {
         let height = self.w.node.height;
         let h = &self.w.node.htlcs[hid as usize];
         let s = &h.spec;
@@ -748,7 +767,16 @@ impl Sim {
         });
         let n = self.w.node.next_call;
         self.w.node.next_call += 1;
-        (params, format!("cln:htlc_accepted#{}", n))
+        // The id as it goes on the wire, and the key replies are matched by
+        // (the string itself, or "#json:" + canonical JSON for other shapes).
+        let idv: Value = match self.w.cfg.id_style {
+            1 => json!(1000 + n),
+            2 => json!(u64::MAX - n),
+            3 => json!(format!("cln:\"htlc\\accepted\"\u{e9}\u{1f600}#{}", n)),
+            _ => json!(format!("cln:htlc_accepted#{}", n)),
+        };
+        let key = id_key(&idv);
+        (params, idv, key)
     }
 
     fn add_htlc(&mut self, spec: content::HtlcSpec, set_ix: u32, is_probe: bool) -> u64 {
@@ -1040,10 +1068,19 @@ impl Sim {
             Op::CatchupMark => {
                 self.w.catchup = Some((self.w.node.height, self.w.now_ms));
             }
-            Op::Freeze { hash } => {
-                self.w.frozen_hash = Some(*hash as usize);
-                self.w.frozen_at_step = Some(self.w.step);
-                self.stats.fault("hash-frozen");
+            Op::Freeze { hash, soft } => {
+                if (*hash as usize) < 32 {
+                    if *soft {
+                        self.w.frozen_soft |= 1 << *hash;
+                        self.stats.fault("hash-payment-stalled");
+                    } else {
+                        self.w.frozen_hard |= 1 << *hash;
+                        self.stats.fault("hash-frozen");
+                    }
+                    if self.w.frozen_at_step.is_none() {
+                        self.w.frozen_at_step = Some(self.w.step);
+                    }
+                }
             }
             Op::Multi { .. } => {}
             Op::Crash { .. } => unreachable!(),
@@ -1062,9 +1099,9 @@ impl Sim {
             if !ok {
                 continue;
             }
-            let (params, call_id) = self.build_call(*hid);
+            let (params, idv, call_id) = self.build_call(*hid);
             let class = rf::classify(&params, &ccfg);
-            let msg = json!({"jsonrpc":"2.0","id":call_id,"method":"htlc_accepted","params":params});
+            let msg = json!({"jsonrpc":"2.0","id":idv,"method":"htlc_accepted","params":params});
             let mut s = serde_json::to_vec(&msg).unwrap();
             s.extend_from_slice(b"\n\n");
             bytes.extend_from_slice(&s);
@@ -1374,12 +1411,23 @@ impl Sim {
                 }
             }
             Some(other) => {
-                self.or.violate(
-                    &self.w,
-                    "C17",
-                    "unknown-id",
-                    format!("reply with a non-string id {}", other),
-                );
+                let key = id_key(&other);
+                if let Some(ci) = self
+                    .w
+                    .node
+                    .calls
+                    .iter()
+                    .position(|c| c.call_id == key && c.lifetime == self.w.node.lifetime)
+                {
+                    self.on_hook_reply(ci, &v);
+                } else {
+                    self.or.violate(
+                        &self.w,
+                        "C17",
+                        "unknown-id",
+                        format!("reply with an id no request carried: {}", other),
+                    );
+                }
             }
         }
     }
@@ -1461,7 +1509,14 @@ pub fn find_sep(b: &[u8]) -> Option<usize> {
     b.windows(2).position(|w| w == b"\n\n")
 }
 
-pub fn parse_answer(v: &Value) -> Answer {
+pub fn id_key(id: &Value) -> String {
+    match id {
+        Value::String(s) => s.clone(),
+        other => format!("#json:{}", other),
+    }
+}
+
+fn parse_answer(v: &Value) -> Answer {
     if let Some(e) = v.get("error") {
         return Answer::RpcError(e.clone());
     }
